@@ -80,11 +80,10 @@ def rig_cfg(seg=50, nq=3, nr=3, lq=None, lr=None, rk="ack", pwc=2, pws=2, retrie
     return d
 
 
-def group_key(rc):
-    """the TSM constants a recorded run must be validated with"""
-    seg = rc["seg"]
-    nq = max(1, -(-rc["lq"] // seg))
-    nr = 0 if rc["lr"] is None else max(1, -(-rc["lr"] // seg))
+def group_key(t):
+    """the TSM constants a recorded run must be validated with (segment counts as the real state machines computed them)"""
+    rc = t["cfg"]
+    nq, nr = t["nq"], t["nr"]
     if rc.get("rk", "ack") != "ack":
         nr = 1
     return (nq, nr, rc.get("rk", "ack"), rc["pwc"], rc["pws"], rc["retries"], rc["tapdu"], rc["tseg"], rc["tapp"],
@@ -148,7 +147,7 @@ def validate(chk, traces, flags, on_verdict, label=""):
     parallel), calls on_verdict(trace, verdict) for every trace."""
     groups = {}
     for t in traces:
-        groups.setdefault(group_key(t["cfg"]), []).append(t)
+        groups.setdefault(group_key(t), []).append(t)
     wd = tlc.workdir("trtsm")
     try:
         jobs = [(k, flags, v, wd) for k, v in groups.items()]
